@@ -1,4 +1,5 @@
 import numpy as np
+import json
 
 from ..settings import Sign, EnvType, Format
 from ..datatypes import StringType, BooleanType, NumberType, FloatType, IntegerType
@@ -52,28 +53,32 @@ class ExportConfig:
         lines = []
         for name, param in self.data.items():
             value = param.value
+            dims = ""
+            if isinstance(value, (list, np.ndarray)):   # arrays are written with their shape and in nested brackets
+                dims = "["+",".join(str(d) for d in np.shape(value))+"]"
             if isinstance(param, StringType):
                 dtype = StringNode.keyword
-                value = f"\"{value}\""
+                value = json.dumps(value) if dims else f"\"{value}\""
             elif isinstance(param, BooleanType):
                 dtype = BooleanNode.keyword
-                value = "true" if value else "false"
+                value = json.dumps(value) if dims else ("true" if value else "false")
             elif isinstance(param, IntegerType):
                 dtype = IntegerNode.keyword
                 if param.unsigned:
                     dtype = "u"+dtype
                 if param.precision!=IntegerType.precision:
                     dtype += str(param.precision)
-                value = int(param.value)
+                value = json.dumps(value) if dims else int(param.value)
             elif isinstance(param, FloatType):
                 dtype = FloatNode.keyword
                 if param.precision!=FloatType.precision:
                     dtype += str(param.precision)
-                value = float(param.value)
+                value = json.dumps(value) if dims else float(param.value)
+            value = str(value).replace(" ","") if dims else value
             if param.unit:
-                lines.append(f"{name} {dtype} = {value} {param.unit}")
+                lines.append(f"{name} {dtype}{dims} = {value} {param.unit}")
             else:
-                lines.append(f"{name} {dtype} = {value}")
+                lines.append(f"{name} {dtype}{dims} = {value}")
         self.text = Sign.NEWLINE.join(lines)
         return self.text
 
